@@ -459,6 +459,13 @@ Definition signal_connect_ok (l : list (string * string * bool)) : bool :=
   has "fun" "ptr_fun" && has "mem" "mem_fun" && has "const_mem" "mem_fun" &&
   forallb (fun '(k, f, io) => io && (if String.eqb k "fun" then String.eqb f "ptr_fun" else String.eqb f "mem_fun")) l.
 
+(* mem_fun(obj, method), all four cv-flavours of the method: the functor is typed after the class of the
+   object, so that FMem's tracking (visit_each reaches obj_ through limit_reference, which tests whether the
+   OBJECT's class derives from sigc::trackable) is what the library does for inherited methods too *)
+Definition memfun_class_ok (l : list (string * string)) : bool :=
+  forallb (fun cv => existsb (fun '(cv', c) => String.eqb cv cv' && String.eqb c "object") l) ["none"; "const"; "volatile"; "const volatile"]
+  && forallb (fun '(_, c) => String.eqb c "object") l.
+
 (* arity discipline (what the C++ type checker enforces about argument counts) *)
 Fixpoint wt (e : fexpr) (n : nat) : bool :=
   match e with
